@@ -1,0 +1,112 @@
+//! Verification hooks. This file is only compiled with `--cfg daniel729_chess_verif`.
+//!
+//! Read-only access to the internal caches of `Game`.
+use super::{scores, Game, GamePhase, PieceType};
+
+impl Game {
+    /// One line with the complete concrete state of the game
+    pub fn verif_dump(&self) -> String {
+        let board: String = self
+            .board
+            .iter()
+            .map(|place| place.map(|piece| piece.as_char_ascii()).unwrap_or('.'))
+            .collect();
+        let past_scores: Vec<String> = self.past_scores.iter().map(|s| s.to_string()).collect();
+        let past_hashes: Vec<String> = self.past_hashes.iter().map(|h| format!("{:x}", h)).collect();
+        let state: Vec<String> = self
+            .state
+            .iter()
+            .map(|state| {
+                format!(
+                    "{:x}",
+                    (state.en_passant() as u8)
+                        | (state.white_king_castling() as u8) << 4
+                        | (state.white_queen_castling() as u8) << 5
+                        | (state.black_king_castling() as u8) << 6
+                        | (state.black_queen_castling() as u8) << 7
+                )
+            })
+            .collect();
+        let king_table = if std::ptr::eq(
+            self.piece_scores[PieceType::King as usize].get(),
+            &scores::KING_SCORES_END,
+        ) {
+            'e'
+        } else {
+            'm'
+        };
+        let kings: Vec<String> = self
+            .king_positions
+            .iter()
+            .map(|p| format!("{}{}", p.row(), p.col()))
+            .collect();
+        format!(
+            "board={} ps={} ph={} state={} ktab={} phase={} kings={} score={} hash={:x} player={} stack={}",
+            board,
+            past_scores.join(","),
+            past_hashes.join(","),
+            state.join(","),
+            king_table,
+            if self.phase == GamePhase::Endgame { 'e' } else { 'o' },
+            kings.join(","),
+            self.score,
+            self.hash,
+            if self.current_player == super::Player::White { 'w' } else { 'b' },
+            self.move_stack.len(),
+        )
+    }
+}
+
+/// Every table the translator reads from the sources, as the compiled program sees it
+pub fn verif_dump_tables() -> String {
+    use super::piece::Piece;
+    use super::zobrist;
+    use super::Player;
+    let mut out = String::new();
+    let table = |name: &str, t: &[i16; 64]| {
+        let v: Vec<String> = t.iter().map(|s| s.to_string()).collect();
+        format!("table {} {}\n", name, v.join(","))
+    };
+    out += &table("QUEEN_SCORES", &scores::QUEEN_SCORES);
+    out += &table("ROOK_SCORES", &scores::ROOK_SCORES);
+    out += &table("BISHOP_SCORES", &scores::BISHOP_SCORES);
+    out += &table("KNIGHT_SCORES", &scores::KNIGHT_SCORES);
+    out += &table("PAWN_SCORES", &scores::PAWN_SCORES);
+    out += &table("KING_SCORES_MIDDLE", &scores::KING_SCORES_MIDDLE);
+    out += &table("KING_SCORES_END", &scores::KING_SCORES_END);
+    out += &format!("const ENDGAME_THRESHOLD {}\n", scores::ENDGAME_THRESHOLD);
+    out += &format!("key BLACK_TO_MOVE {:x}\n", zobrist::BLACK_TO_MOVE);
+    out += &format!("key EMPTY_PLACE {:x}\n", zobrist::EMPTY_PLACE);
+    let v: Vec<String> = zobrist::STATE.iter().map(|k| format!("{:x}", k)).collect();
+    out += &format!("keys STATE {}\n", v.join(","));
+    let mut v = Vec::new();
+    for square in zobrist::PIECE.iter() {
+        for key in square.iter() {
+            v.push(format!("{:x}", key));
+        }
+    }
+    out += &format!("keys PIECE {}\n", v.join(","));
+    for piece_type in [
+        PieceType::Queen,
+        PieceType::Rook,
+        PieceType::Bishop,
+        PieceType::Knight,
+        PieceType::Pawn,
+        PieceType::King,
+    ] {
+        for owner in [Player::White, Player::Black] {
+            let piece = Piece { piece_type, owner };
+            out += &format!(
+                "piece {} {} index={} material={} ascii={} pgn={} glyph={:x}\n",
+                piece_type as usize,
+                if owner == Player::White { 'w' } else { 'b' },
+                piece.as_index(),
+                piece.material_value(),
+                piece.as_char_ascii(),
+                piece.as_str_pgn(),
+                piece.as_char() as u32,
+            );
+        }
+    }
+    out
+}
